@@ -210,6 +210,16 @@ func newSched(ep *Episode) *Sched {
 
 func (s *Sched) AddSource(src Source) { s.sources = append(s.sources, src) }
 
+// RemoveSource drops a source (pointer identity).
+func (s *Sched) RemoveSource(src Source) {
+	for i, x := range s.sources {
+		if x == src {
+			s.sources = append(s.sources[:i:i], s.sources[i+1:]...)
+			return
+		}
+	}
+}
+
 func (s *Sched) poke() {
 	select {
 	case s.wake <- struct{}{}:
@@ -339,6 +349,15 @@ func (s *Sched) collect() []Event {
 		evs = append(evs, e)
 	}
 	s.Mu.Lock()
+	if len(s.order) > 64 {
+		live := s.order[:0:0]
+		for _, t := range s.order {
+			if !t.Done {
+				live = append(live, t)
+			}
+		}
+		s.order = live
+	}
 	tasks := append([]*Task(nil), s.order...)
 	s.Mu.Unlock()
 	for _, t := range tasks {
